@@ -18,6 +18,7 @@
 EXTENDS DispDefs
 
 CONSTANTS Variant,      \* "ok" | "c2_sign" | "half_dropped" | "c3_plus_b"
+          Guard,        \* "or" (the code's axis_active rule) | "and" (wrong: the omega_0*dt < 2 check never fires for Lorentz/Drude)
           Ws, Gs, Des,  \* Lorentz grid: w0*dt, gamma*dt, delta_epsilon   (sets of <<n,d>>)
           Wps,          \* Drude grid: wp*dt
           CpA, CpOm, CpGa, CpPh,   \* critical-point grid: amplitude, Omega*dt, Gamma*dt, <<cos, sin>> pairs
@@ -49,7 +50,10 @@ Lorentz == { [ ptype |-> "lorentz", v |-> << w, g, de >> ] : w \in Ws, g \in Gs,
 Drude   == { [ ptype |-> "drude", v |-> << wp, g >> ] : wp \in Wps, g \in Gs }
 Cp      == { [ ptype |-> "cp", v |-> << A, om, ga, ph[1], ph[2] >> ] : A \in CpA, om \in CpOm, ga \in CpGa, ph \in CpPh }
 Single  == Lorentz \cup Drude \cup { p \in Cp : Precond(Unified(p)) }
-Materials == { << p >> : p \in Single } \cup
+\* poles at or beyond the uncoupled limit omega_0*dt = 2 (strength 0 = the documented way to switch an axis off: exempt)
+Beyond  == { [ ptype |-> "lorentz", v |-> << w, g, de >> ] : w \in { << 2, 1 >>, << 5, 2 >>, << 4, 1 >> }, g \in { << 0, 1 >>, << 1, 4 >> },
+                                                              de \in { << 0, 1 >>, << 2, 1 >> } }
+Materials == { << p >> : p \in Single \cup Beyond } \cup { << [ ptype |-> "drude", v |-> << << 1, 2 >>, << 1, 4 >> >> ], p >> : p \in Beyond } \cup
              (IF Pairs THEN { << [ ptype |-> "lorentz", v |-> << w, g, << 2, 1 >> >> ], [ ptype |-> "drude", v |-> << wp, h >> ] >> :
                                  w \in QW, g \in QG, wp \in QWp, h \in QG } ELSE {})   \* two-pole materials (small grid: sums stay in range)
 
@@ -59,8 +63,10 @@ vars == << poles, phase, slots, rec, xx, chi >>
 Init == /\ poles \in Materials
         /\ phase = "declared" /\ slots = << >> /\ rec = << >> /\ xx = RZ /\ chi = CZ
 
+\* placement: compute_pole_coefficients_tensor raises for an active axis with omega_0*dt >= 2; nothing is stored then
+Placeable == \A i \in 1..Len(poles) : Accepts(Unified(poles[i]), Guard)
 Discretise ==
-    /\ phase = "declared"
+    /\ phase = "declared" /\ Placeable
     /\ slots' = [ i \in 1..Slots |-> IF i <= Len(poles) THEN Coef(Unified(poles[i]), Variant) ELSE CZero ]
     /\ phase' = "stored"
     /\ UNCHANGED << poles, rec, xx, chi >>
@@ -93,6 +99,15 @@ TypeOK == /\ phase \in { "declared", "stored", "rec", "eval" }
           /\ Len(poles) \in 1..Slots
           /\ phase # "declared" => Len(slots) = Slots
           /\ phase \in { "rec", "eval" } => Len(rec) = Slots
+
+\* acceptance precondition, explicit: whatever placement lets through has omega_0*dt < 2 on every axis that couples,
+\* and then (damping >= 0) its stored recurrence is Jury-stable WITHOUT assuming the precondition separately
+AcceptsWithinLimit == phase # "declared" => \A i \in 1..Len(poles) :
+                          LET u == Unified(poles[i]) IN Couples(u) => RLt(u.w2, RI(4))
+AcceptedJury == (phase # "declared" /\ Variant = "ok") => \A i \in 1..Len(poles) :
+                          LET u == Unified(poles[i]) IN (Couples(u) /\ RLe(RZ, u.g)) => Jury(slots[i])
+RejectsBeyond == \A i \in 1..Len(poles) : LET u == Unified(poles[i]) IN
+                          (Couples(u) /\ ~RLt(u.w2, RI(4))) => phase = "declared"
 
 \* (b) Jury stability inside the property's preconditions (all enumerated poles satisfy them)
 JuryOK  == phase # "declared" => \A i \in 1..Len(poles) : Precond(Unified(poles[i])) => Jury(slots[i])
